@@ -208,6 +208,7 @@ static inline ChildEnd run_isolated(Harness &h, const Json &plan, int timeout_s,
     e.status = r.at("violation").b ? "violation" : "ok";
     e.cls = r.gets("cls"); e.sig = r.gets("sig"); e.detail = r.gets("detail");
     e.hash = strtoull(r.gets("hash").c_str(), nullptr, 16);
+    if (reclass && e.status == "violation") { h.reclassify(plan, e); if (e.cls.compare(0, 5, "side_") == 0) e.status = "ok"; }
     return e;
   }
   ChildEnd ce = classify_death(st, (const char *) slot->note, hang);
@@ -239,12 +240,15 @@ static inline void worker_loop(Harness &h, Shared *sh, int wid, uint64_t seed, i
     if (o.nontrivial) {
       __sync_fetch_and_add(&sh->nontrivial, 1);
       hb.push_back(plan_hash(plan));
-      if (hb.size() >= 1024) { fwrite(hb.data(), 8, hb.size(), hf); fflush(hf); hb.clear(); }
+      if (hb.size() >= 16) { fwrite(hb.data(), 8, hb.size(), hf); fflush(hf); hb.clear(); }  // small batches: a dying worker loses its buffer
       if (sh->nsamples < MAX_SAMPLES) { int64_t k = __sync_fetch_and_add(&sh->nsamples, 1); if (k < MAX_SAMPLES) sh->sample_idx[k] = ix; }
     }
     if (o.violation) {
+      ChildEnd ce; ce.status = "violation"; ce.cls = o.cls; ce.sig = o.sig; ce.detail = o.detail;
+      h.reclassify(plan, ce);
+      if (ce.cls.compare(0, 5, "side_") == 0) { o.cls = ce.cls; o.sig = ce.sig; o.detail = ce.detail; }
       Json r = Json::object();
-      r.set("index", (long long) ix); r.set("status", "violation"); r.set("cls", o.cls); r.set("sig", o.sig); r.set("detail", o.detail);
+      r.set("index", (long long) ix); r.set("status", ce.cls.compare(0, 5, "side_") == 0 ? "side" : "violation"); r.set("cls", o.cls); r.set("sig", o.sig); r.set("detail", o.detail);
       fprintf(ff, "%s\n", r.str().c_str()); fflush(ff);
     }
   }
@@ -323,8 +327,7 @@ static inline int mode_run(Harness &h, uint64_t seed, int64_t count, int jobs, c
   for (int w = 0; w < jobs; w++) for (int i = 0; i < MAX_COUNTERS && sh->w[w].counters[i].name[0]; i++) cs[sh->w[w].counters[i].name] += sh->w[w].counters[i].val;
   Json cj = Json::object(); for (auto &p : cs) cj.set(p.first, (unsigned long long) p.second);
   sum.set("counters", cj);
-  Json sdj = Json::object(); for (auto &p : side) sdj.set(p.first, (long long) p.second);
-  sum.set("side_findings", sdj);
+
   // distinct plan hashes among nontrivial runs
   std::vector<uint64_t> hs;
   for (int w = 0; w < jobs; w++) { std::string d = read_file(outdir + fmt("/hash.%d", w)); size_t n = d.size() / 8; size_t o = hs.size(); hs.resize(o + n); memcpy(hs.data() + o, d.data(), n * 8); }
@@ -335,8 +338,11 @@ static inline int mode_run(Harness &h, uint64_t seed, int64_t count, int jobs, c
     std::string d = read_file(outdir + (w < 0 ? std::string("/fail.sup") : fmt("/fail.%d", w)));
     size_t p = 0; while (p < d.size()) { size_t q = d.find('\n', p); if (q == std::string::npos) q = d.size(); if (q > p) { try { fl.push(Json::parse(d.substr(p, q - p))); } catch (...) {} } p = q + 1; }
   }
+  { Json keep = Json::array(); for (auto &f : fl.a) { if (f.gets("status") == "side") side[f.gets("cls") + "/" + f.gets("sig")]++; else keep.push(f); } fl = keep; }
   std::sort(fl.a.begin(), fl.a.end(), [](const Json &x, const Json &y) { return x.geti("index") < y.geti("index"); });
   sum.set("failures", fl);
+  Json sdj = Json::object(); for (auto &p : side) sdj.set(p.first, (long long) p.second);
+  sum.set("side_findings", sdj);
   Json sj = Json::array(); int ns = (int) std::min<int64_t>((int64_t) sh->nsamples, (int64_t) MAX_SAMPLES); for (int i = 0; i < ns; i++) sj.push((long long) sh->sample_idx[i]);
   sum.set("sample_indices", sj);
   write_file(outdir + "/summary.json", sum.str());
@@ -353,7 +359,14 @@ static inline void print_result(const ChildEnd &e) {
 
 // ddmin over plan["ops"], then harness-specific simplifications, preserving (cls,sig)
 static inline Json minimise(Harness &h, Json plan, const ChildEnd &target, int timeout_s, int *evals) {
-  auto same = [&](const Json &cand) { (*evals)++; ChildEnd e = run_isolated(h, cand, timeout_s); return e.status != "ok" && e.cls == target.cls && e.sig == target.sig; };
+  int64_t t_start = now_ms(); const int64_t max_ms = 60000; const int max_evals = 600;
+  auto same = [&](const Json &cand) {
+    (*evals)++; ChildEnd e = run_isolated(h, cand, timeout_s, false);
+    if (e.status == "ok" || e.cls != target.cls || e.sig != target.sig) return false;
+    h.reclassify(cand, e);  // only candidates that still look the same pay for the reclassification experiment
+    return e.cls == target.cls && e.sig == target.sig;
+  };
+  auto out_of_budget = [&]() { return *evals > max_evals || now_ms() - t_start > max_ms; };
   Json *ops = plan.find("ops");
   if (ops && ops->k == Json::Arr) {
     size_t n = 2;
@@ -366,12 +379,12 @@ static inline Json minimise(Harness &h, Json plan, const ChildEnd &target, int t
         if (same(cand)) { plan = cand; ops = plan.find("ops"); n = std::max<size_t>(n - 1, 2); reduced = true; break; }
       }
       if (!reduced) { if (chunk == 1) break; n = std::min(n * 2, len); }
-      if (*evals > 3000) break;
+      if (out_of_budget()) break;
     }
   }
-  for (int round = 0; round < 50 && *evals < 6000; round++) {
+  for (int round = 0; round < 200 && !out_of_budget(); round++) {
     bool any = false;
-    for (auto &cand : h.simplify(plan)) { if (same(cand)) { plan = cand; any = true; break; } }
+    for (auto &cand : h.simplify(plan)) { if (out_of_budget()) break; if (same(cand)) { plan = cand; any = true; break; } }
     if (!any) break;
   }
   return plan;
